@@ -1736,6 +1736,7 @@ func hookKeys(st *State, in ssa.Instruction, t callTarget) []string {
 			keys = append(keys, fmt.Sprintf("%s#%d", q, found), q)
 		}
 	}
+	callee = st.ctx.eng.stableSubject(in.Parent(), callee)
 	return append(keys, callee+"#"+ord, callee)
 }
 
@@ -1852,6 +1853,27 @@ func (st *State) havocNamed(env *SpecEnv, loc string) (err error) {
 			}
 			if p == nil || id > bestCell {
 				p, bestCell = rv.P, id
+			}
+		}
+		if p == nil {
+			// the variable may have been renamed: the one with the recorded definition (bindings.go)
+			eng := st.ctx.eng
+			if fb := eng.bindings[bindingKey(st.fr.fn)]; fb != nil {
+				if want, ok := fb.Locals[loc]; ok {
+					fps := eng.allocFingerprints(st.fr.fn)
+					for v, rv := range st.fr.regs {
+						a, ok := v.(*ssa.Alloc)
+						if !ok || rv.P == nil || fps[a] != want {
+							continue
+						}
+						if rv.P.Kind == pkCell {
+							if _, live := st.cells[rv.P.Cell]; !live {
+								continue
+							}
+						}
+						p = rv.P
+					}
+				}
 			}
 		}
 		if p == nil {
